@@ -58,6 +58,10 @@ FLAG_POOL = [
     "-fPIC -shared -O1 -DFA=1 -DFB=1 -DFP=1",
     "-fPIC -shared -O1 -DFA=2 -DFB=1 -DFP=2",
     "-fPIC -shared -O1 -DFA=1 -DFB=2 -DFP=3",
+    # flag strings in which tokens repeat and the repetition matters (define, undefine, define again): the later
+    # one extends the earlier one by tokens that all occurred before
+    "-fPIC -shared -O1 -DFA=1 -DFB=1 -DFP=1 -UFP -DFP=2",
+    "-fPIC -shared -O1 -DFA=1 -DFB=1 -DFP=1 -UFP -DFP=2 -UFP -DFP=1",
 ]
 
 # property -> list of values (index 0 = base)
@@ -241,6 +245,8 @@ def systematic():
     for env in ENVS[3:]:
         for k in FLAG_PROPS:
             hist(base, dict(base, **{k: 1}), env=env)
+    for k in FLAG_PROPS:
+        hist(dict(base, **{k: 3}), dict(base, **{k: 4}))
     a = dict(base, kind=1)
     hist(a, dict(a, src=1))
     hist(a, dict(a, src=1), inproc=3)
